@@ -435,6 +435,7 @@ impl Actor {
             put_queries,
             put_senders,
             get_senders,
+            inflight: inflight.clone(),
             inflight_raw: inflight.len(),
             inflight_live: inflight
                 .iter()
